@@ -34,9 +34,14 @@ contract(P + "_Property.__call__", requires=PROP_WF + " and is_obj(self.element)
          ghost={"function": "dflt(self.element) if is_np(value) else build(self.element, value)"},
          calls={"self.element": ECALL}, props=["C01", "C04", "C08"])
 
-contract(P + "_Property.__eq__", requires=PROP_WF,
-         returns="is_bool(result) and implies(not isinstance(other, _Property), result is False)",
-         props=["C17"], bounded_only=True, note="element equality (Element.__eq__) is structural over vars(): outside the executor's subset for now")
+# property equality: same element (by ==), same required flag, same JSON name; never equal to a non-property.
+# `==` between element objects is the uninterpreted relation obj_eq (Element.__eq__ itself -- structural comparison of vars() --
+# stays in the bounded tier); the clause below is symmetric in self/other whenever obj_eq is.
+contract(P + "_Property.__eq__",
+         requires=PROP_WF + " and implies(isinstance(other, _Property), not attr_absent(other,'element') and not attr_absent(other,'required') and not attr_absent(other,'source'))",
+         returns="is_bool(result) and implies(not isinstance(other, _Property), result is False) and "
+                 "implies(isinstance(other, _Property), result == (py_eq(self.element, other.element) and py_eq(self.required, other.required) and py_eq(self.source, other.source)))",
+         props=["C17"])
 
 # C05 / Dev-3: the names a model requires = JSON names of required properties that declare no default
 PD = "obj_dict(self)"
